@@ -14,6 +14,9 @@ import Mathlib.Tactic.FieldSimp
 import Mathlib.Algebra.Field.Rat
 import BB.Model.Sequence
 import BB.Proofs.Basic
+import BB.Properties.C15
+import BB.Proofs.G9Capstone
+import BB.Proofs.G9Ex
 
 namespace BB.C11
 open BB
@@ -395,5 +398,142 @@ theorem compensation_call_sites :
     Gen.filterCallSites.map (·.1) = ["forge", "_prepareForOutputting"] ∧
     ∀ c ∈ Gen.filterCallSites, c.2.1 = 1 ∧ c.2.2.1 = "self.SR" ∧ c.2.2.2 = ["kind", "f_cut", "order"] := by
   decide
+
+end BB.C11
+
+/-! ### capstone: tau ≡ f_cut and the declared filter call, all the way through both AWG output methods -/
+namespace BB.C11
+open BB.Sequence
+
+/-- **`setChannelFilterCompensation(ch, kind, order, tau=1/f_cut)` ≡ `(…, f_cut=f_cut)`, all the way
+    through the output methods**: after either call `outputForAWGFile`, `outputForSEQXFile` and
+    `outputForSEQXFileWithFlags` return the very same result — the same exception, or the same
+    deferred range obligations, pending exception and package (together with
+    `setFilter_tau_equiv_fcut_forge` this is "tau = 1/f_cut is equivalent to f_cut" for all three
+    output paths) -/
+theorem setFilter_tau_equiv_fcut_outputs (s : Sequence) (ch : Chan) (kind : String) (order : ℤ) (isInt : Bool)
+    (fc : ℚ) (hfc : fc ≠ 0) :
+    Sequence.outputForAWGFile (s.setChannelFilterCompensation ch kind order isInt (.num fc) .none).st =
+      Sequence.outputForAWGFile (s.setChannelFilterCompensation ch kind order isInt .none (.num (1 / fc))).st ∧
+    Sequence.outputForSEQXFile (s.setChannelFilterCompensation ch kind order isInt (.num fc) .none).st =
+      Sequence.outputForSEQXFile (s.setChannelFilterCompensation ch kind order isInt .none (.num (1 / fc))).st ∧
+    Sequence.outputForSEQXFileWithFlags (s.setChannelFilterCompensation ch kind order isInt (.num fc) .none).st =
+      Sequence.outputForSEQXFileWithFlags (s.setChannelFilterCompensation ch kind order isInt .none (.num (1 / fc))).st := by
+  have hprep := setFilter_tau_equiv_fcut_prepare s ch kind order isInt fc hfc
+  rw [G9.setFilter_st, G9.setFilter_st] at hprep ⊢
+  by_cases hacc : Gen.filterKinds.contains kind = true ∧ isInt = true
+  · have c1 : Gen.filterKinds.contains kind = true ∧ isInt = true ∧ (Val.num fc = .none ∨ Val.none = .none) :=
+      ⟨hacc.1, hacc.2, .inr rfl⟩
+    have c2 : Gen.filterKinds.contains kind = true ∧ isInt = true ∧ (Val.none = .none ∨ Val.num (1 / fc) = .none) :=
+      ⟨hacc.1, hacc.2, .inl rfl⟩
+    rw [if_pos c1, if_pos c2] at hprep ⊢
+    exact G9.outputs_setFilterSpec_congr s ch _ _ hprep
+  · have c1 : ¬ (Gen.filterKinds.contains kind = true ∧ isInt = true ∧ (Val.num fc = .none ∨ Val.none = .none)) :=
+      fun hc => hacc ⟨hc.1, hc.2.1⟩
+    have c2 : ¬ (Gen.filterKinds.contains kind = true ∧ isInt = true ∧ (Val.none = .none ∨ Val.num (1 / fc) = .none)) :=
+      fun hc => hacc ⟨hc.1, hc.2.1⟩
+    rw [if_neg c1, if_neg c2]
+    exact ⟨rfl, rfl, rfl⟩
+
+/-- helper (C11, output paths): what a successful `filterOf` lookup says about the call, in terms of the stored setting -/
+theorem filterOf_ok_spec (s : Sequence) (ch : Chan) (fl : Option FiltCall) (h : s.filterOf ch = .ok fl) :
+    (Dict.get? s.awgspecs (keyOf ch "filtercompensation") = none → fl = none) ∧
+    (∀ f, Dict.get? s.awgspecs (keyOf ch "filtercompensation") = some (.filt f) →
+      (∀ fc, f.f_cut = .num fc → fl = some ⟨f.kind, f.order, fc, s.getSR⟩) ∧
+      (∀ t, f.f_cut = .none → f.tau = .num t → t ≠ 0 → fl = some ⟨f.kind, f.order, 1 / t, s.getSR⟩)) := by
+  refine ⟨fun hn => ?_, fun f hf => ⟨fun fc hfc => ?_, fun t hn ht h0 => ?_⟩⟩
+  · rw [no_spec_no_filter s ch hn] at h
+    exact (Except.ok.inj h).symm
+  · rw [(filter_call_spec s ch f hf).1 fc hfc] at h
+    exact (Except.ok.inj h).symm
+  · rw [(filter_call_spec s ch f hf).2 t hn ht h0] at h
+    exact (Except.ok.inj h).symm
+
+/-- **`outputForAWGFile` delivers the declared filter call at every position for every compensated
+    channel, none for the others**: in a delivered package, for every channel index `i` of
+    `Sequence.channels` and every position index `p` there is a waveform `pkg.wfms[i][p]`, and its
+    filter annotation is exactly `filterOf` of that channel: none when no compensation is declared
+    for the channel; for a declared `(kind, order, f_cut | tau)` the call
+    `applyInverseRCFilter(wfm, SR, kind, f_cut or 1/tau, order, DCgain=1)` with the sequence's own
+    sample rate -/
+theorem awg_delivers_declared_filter (s : Sequence) (d : Deferred AWGPkg) (pkg : AWGPkg)
+    (h : s.outputForAWGFile = .ok d) (hp : d.pkg = some pkg) :
+    s.channels = .ok pkg.channels ∧
+    ∀ i (hi : i < pkg.channels.length) p (_ : p < s.data.length), ∃ w,
+      (pkg.wfms[i]?).bind (·[p]?) = some w ∧ s.filterOf pkg.channels[i] = .ok w.filt ∧
+      (Dict.get? s.awgspecs (keyOf pkg.channels[i] "filtercompensation") = none → w.filt = none) ∧
+      (∀ f, Dict.get? s.awgspecs (keyOf pkg.channels[i] "filtercompensation") = some (.filt f) →
+        (∀ fc, f.f_cut = .num fc → w.filt = some ⟨f.kind, f.order, fc, s.getSR⟩) ∧
+        (∀ t, f.f_cut = .none → f.tau = .num t → t ≠ 0 → w.filt = some ⟨f.kind, f.order, 1 / t, s.getSR⟩)) := by
+  obtain ⟨P, hP, hlen, hch, _⟩ := C14.awg_shape s d pkg h hp
+  obtain ⟨P', hP', _, hcell, _⟩ := C14.awg_content_channels s d pkg h hp
+  have hPP : P' = P := by
+    rw [hP] at hP'
+    exact (Except.ok.inj hP').symm
+  subst hPP
+  refine ⟨hch, fun i hi p hpp => ?_⟩
+  have hpP : p < P'.length := by omega
+  obtain ⟨ob, w, c, m1, m2, hck, hw, hc, _⟩ := hcell i hi p hpP
+  obtain ⟨a, o, c', w0, _, _, hc', hw0, hweq, _⟩ := C14.awgCheckWave_ok s (p + 1) P'[p] pkg.channels[i] ob w hck
+  rw [hc] at hc'
+  cases hc'
+  have hfo : s.filterOf pkg.channels[i] = .ok w.filt := by
+    have := (prepare_filter_spec s P' hP p hpP pkg.channels[i] c (G9.lookup_mem _ _ _ hc)).1
+    rw [hweq]
+    show s.filterOf pkg.channels[i] = .ok w0.filt
+    rw [G9.chWave_filt c w0 hw0]; exact this
+  obtain ⟨h1, h2⟩ := filterOf_ok_spec s pkg.channels[i] w.filt hfo
+  exact ⟨w, hw, hfo, h1, h2⟩
+
+/-- **... and so do `outputForSEQXFile` / `outputForSEQXFileWithFlags`** (the flags variant delivers
+    the same waveforms, `C15.seqx_flags_content`): for every channel index `i` of `Sequence.channels`
+    and every position index `p` the waveform of `pkg.wfms[i][p]` is annotated with exactly the
+    call declared for that channel, and with none when no compensation is declared for it -/
+theorem seqx_delivers_declared_filter (s : Sequence) (d : Deferred SEQXPkg) (pkg : SEQXPkg)
+    (h : s.outputForSEQXFile = .ok d) (hp : d.pkg = some pkg) :
+    ∃ chans, s.channels = .ok chans ∧
+    ∀ i (hi : i < chans.length) p (_ : p < s.data.length), ∃ w m1 m2,
+      (pkg.wfms[i]?).bind (·[p]?) = some (w, m1, m2) ∧ s.filterOf chans[i] = .ok w.filt ∧
+      (Dict.get? s.awgspecs (keyOf chans[i] "filtercompensation") = none → w.filt = none) ∧
+      (∀ f, Dict.get? s.awgspecs (keyOf chans[i] "filtercompensation") = some (.filt f) →
+        (∀ fc, f.f_cut = .num fc → w.filt = some ⟨f.kind, f.order, fc, s.getSR⟩) ∧
+        (∀ t, f.f_cut = .none → f.tau = .num t → t ≠ 0 → w.filt = some ⟨f.kind, f.order, 1 / t, s.getSR⟩)) := by
+  obtain ⟨P, chans, amps, hP, hlen, hch, _, _, _, _, _, _, _, _, _, _, _, _, hcell, _⟩ :=
+    C15.seqx_content_channels s d pkg h hp
+  refine ⟨chans, hch, fun i hi p hpp => ?_⟩
+  have hpP : p < P.length := by omega
+  obtain ⟨c, w, m1, m2, hc, hw, _, _, hcl⟩ := hcell i hi p hpP
+  have hfo : s.filterOf chans[i] = .ok w.filt := by
+    have := (prepare_filter_spec s P hP p hpP chans[i] c (G9.lookup_mem _ _ _ hc)).1
+    rw [G9.chWave_filt c w hw]; exact this
+  obtain ⟨h1, h2⟩ := filterOf_ok_spec s chans[i] w.filt hfo
+  exact ⟨w, m1, m2, hcl, hfo, h1, h2⟩
+
+/-- non-vacuity of `setFilter_tau_equiv_fcut_outputs`, `awg_delivers_declared_filter` and
+    `seqx_delivers_declared_filter`: on the examples `G9Ex.awgSeqF` / `G9Ex.seqxSeqF` (built through
+    the public API, high-pass compensation declared for channel "A" with `f_cut = 1`) the output
+    methods deliver a package; channel "A" is compensated, channel 1 is not -/
+example : (∃ d pkg, G9Ex.awgSeqF.outputForAWGFile = .ok d ∧ d.pkg = some pkg) ∧
+    (∃ d pkg, G9Ex.seqxSeqF.outputForSEQXFile = .ok d ∧ d.pkg = some pkg) ∧
+    G9Ex.awgSeqF.filterOf (.str "A") = .ok (some ⟨"HP", 1, 1, .num 10⟩) ∧ G9Ex.awgSeqF.filterOf (.int 1) = .ok none ∧
+    G9Ex.seqxSeqF.filterOf (.str "A") = .ok (some ⟨"HP", 1, 1, .num 10⟩) ∧ G9Ex.seqxSeqF.filterOf (.int 1) = .ok none := by
+  refine ⟨G9Ex.awgSeqF_awg_ok, G9Ex.seqxSeqF_seqx_ok, by decide +kernel, by decide +kernel, by decide +kernel,
+    by decide +kernel⟩
+
+/-- ... what the AWG5014 package then holds, computed: the filter annotation of every delivered
+    waveform, channel by channel (`[1, "A"]`) and position by position -/
+example : (G9Ex.awgSeqF.outputForAWGFile.toOption.bind (·.pkg)).map (fun pkg => pkg.wfms.map (·.map (·.filt))) =
+    some [[none, none], [some ⟨"HP", 1, 1, .num 10⟩, some ⟨"HP", 1, 1, .num 10⟩]] := by
+  decide +kernel
+
+/-- ... and `setFilter_tau_equiv_fcut_outputs` applied: declaring the same compensation by
+    `tau = 1/1` instead of `f_cut = 1` delivers a package as well (the same one) -/
+example : ∃ d pkg,
+    Sequence.outputForAWGFile (G9Ex.awgSeq.setChannelFilterCompensation (.str "A") "HP" 1 true .none (.num (1 / 1))).st = .ok d ∧
+      d.pkg = some pkg := by
+  obtain ⟨d, pkg, h1, h2⟩ := G9Ex.awgSeqF_awg_ok
+  refine ⟨d, pkg, ?_, h2⟩
+  rw [← (setFilter_tau_equiv_fcut_outputs G9Ex.awgSeq (.str "A") "HP" 1 true 1 (by norm_num)).1]
+  exact h1
 
 end BB.C11
